@@ -116,6 +116,11 @@ class C12(InvProp):
                     ca["repeat"] = 2
                     ca["repeat_seed"] = r.below(1 << 30)
                     yield ca
+            if i % 6 == 2:
+                from .. import geninv2 as GI2
+                st = GI2.rewrite_step(r, c)
+                if st:
+                    c["lifecycle"] = [st]
             if i % 2 == 0:
                 # cross-node application negations
                 nodes = [f for f in c["files"] if f["path"].startswith("nodes/")]
